@@ -66,6 +66,15 @@ func Harness_C08_proofByHash() {
 			}
 			sent = p
 			rsp.Proof = []*trillian.Proof{p}
+			if fault == fSurplus {
+				// the leaf hash is in the log more than once: a second proof, of any index, of any
+				// hash sizes, or an absent one, follows the first; it is not what is served
+				if vChoice("second-proof", 2) == 0 {
+					rsp.Proof = append(rsp.Proof, nil)
+				} else {
+					rsp.Proof = append(rsp.Proof, &trillian.Proof{LeafIndex: vI64("second-leaf-index"), Hashes: [][]byte{vBytes("second-hash", 31+vChoice("second-hash-len", 2))}})
+				}
+			}
 		}
 		return rsp, nil
 	}
@@ -91,6 +100,7 @@ func Harness_C08_proofByHash() {
 		vAssert(len(got.AuditPath) == len(sent.Hashes), "audit path relayed")
 		for i := range sent.Hashes {
 			vAssert(string(got.AuditPath[i]) == string(sent.Hashes[i]), "audit path hashes relayed unchanged and in order")
+			vAssert(len(got.AuditPath[i]) == 32, "every hash of a served proof has the hash size")
 		}
 		vReach("ok200")
 		return
